@@ -158,6 +158,7 @@ def run(chk, scratch):
               nofeat_records = 0
               multi_locus_single = defaultdict(int)
               multi_locus_multi = defaultdict(int)
+              not_a_tie = defaultdict(int)
               for read, rl in by_read.items():
                   feats = set()
                   for rc_ in rl:
@@ -179,6 +180,11 @@ def run(chk, scratch):
                           if level == "gene" or spliced[(read, rc_["chr"])]:
                               if spliced[(read, rc_["chr"])]:
                                   confirming |= f
+                      if len(rl) > 1 and k > len(f) and atype in weights.UNIQUE:
+                          # the resolver marks every record of a read it keeps on several loci as ambiguous; a record that still says
+                          # 'unique' while the read is reported with other features elsewhere is not the outcome of a tie
+                          for x in f:
+                              not_a_tie[x] += 1
                       if len(rl) > 1 and len(f) == 1 and k > 1:
                           multi_locus_single[next(iter(f))] += 1
                       if len(rl) > 1 and len(f) > 1 and k > len(f):
@@ -215,7 +221,8 @@ def run(chk, scratch):
                   ok_zero = val == 0.0 and feat not in confirming
                   if not (ok_sum or ok_zero):
                       key = "count-cell-differs:%s:%s" % (level, strat)
-                      if (multi_locus_single.get(feat) or multi_locus_multi.get(feat)) and abs(val - float(exp_rec.get(feat, 0))) <= 0.005 + 1e-9:
+                      if (multi_locus_single.get(feat) or multi_locus_multi.get(feat)) and not not_a_tie.get(feat) and \
+                              abs(val - float(exp_rec.get(feat, 0))) <= 0.005 + 1e-9:
                           # exactly the value obtained when a read kept on several loci is weighted per locus
                           key = "multi-locus-tie/%s-feature-record:%s" % ("multi" if multi_locus_multi.get(feat) else "single", level)
                       chk.violation(key, "%s: %s %s printed %.2f, documented weights give %s (= %.4f) from assignment types %s%s" %
@@ -305,7 +312,12 @@ def run(chk, scratch):
               if v > 1.0 + 1e-9:
                   lvl = "gene" if "gene" in f else "transcript"
                   key = "read-total-weight-above-1:" + lvl
-                  if len(by_read.get(read, ())) > 1:
+                  lvl_t = "gtype" if lvl == "gene" else "atype"
+                  lvl_f = "genes" if lvl == "gene" else "isoforms"
+                  all_f = set().union(*[rc_[lvl_f] for rc_ in by_read.get(read, ())]) if by_read.get(read) else set()
+                  if len(by_read.get(read, ())) > 1 and any(rc_[lvl_t] in weights.UNIQUE and len(all_f) > len(rc_[lvl_f]) for rc_ in by_read[read]):
+                      key = "read-total-weight-above-1:%s:reported-unique-on-several-loci" % lvl
+                  elif len(by_read.get(read, ())) > 1:
                       mfr = any(len(rc_["genes"] if lvl == "gene" else rc_["isoforms"]) > 1 for rc_ in by_read[read])
                       key = "multi-locus-tie/%s-feature-record:%s" % ("multi" if mfr else "single", lvl)
                   chk.violation(key, "%s: read %s added a total weight of %.3f to the %s counters (reported on %d loci)" %
